@@ -84,6 +84,7 @@ C04.vis: parts that are not PER-visible (X.691 10.3.21; a PATTERN constraint sta
     // string type: the two lists of X.691 30.1 types (the analysis lives with C15.km)
     borrow(ctx, "C15", "C15.km", "C04.km", &mut |sub| crate::rules::c15::run(m, sub));
     invisible_only(m, ctx);
+    size_set_operations(m, ctx);
     let consts = const_resolver(m);
     let inl = inline_all(m, &["ASN1Value"]);
     for k in ["fold_constraint_set", "intersect_single_and_range", "union_single_and_range", ".min_max", ".max", ".min"] {
@@ -372,6 +373,121 @@ fn invisible_only(m: &Model, ctx: &mut Ctx) {
                 Ok(o) => ctx.fail_closed("C04.invisible", &format!("[{}]: result {}", key, o.show().chars().take(100).collect::<String>())),
                 Err(e) => ctx.fail_closed("C04.invisible", &format!("[{}]: {}", key, e)),
             }
+        }
+    }
+}
+
+/// C04.sizeops: set operators between SIZE constraints. `SIZE (1..4) | SIZE (8..10)`, `SIZE (1..4) ^ SIZE (2..10)` and
+/// `SIZE (1..4) EXCEPT SIZE (2)` have the operands wrapped in SizeConstraint nodes, a path of fold_constraint_set of its own
+/// (the value-level pairs are covered by C04.fold). (1) fold_constraint_set is evaluated on such pairs: union = hull,
+/// intersection = intersection, EXCEPT = the base. (2) TryFrom<&Constraint> for PerVisibleRangeConstraints must mark the
+/// result a *size* bound for every operator (the annotation is `size(..)`, not `value(..)`).
+fn size_set_operations(m: &Model, ctx: &mut Ctx) {
+    use std::collections::BTreeMap as Map;
+    let consts = const_resolver(m);
+    let inl = inline_all(m, &["ASN1Value"]);
+    let Ok(fold) = m.find_fn(None, "fold_constraint_set", Some("per_visible")) else {
+        ctx.fail_closed("C04.sizeops", "anchor not found: fold_constraint_set");
+        return;
+    };
+    let int = |v: i128| Val::Ctor("Integer".into(), vec![Val::int(v)], Map::new());
+    let range = |lo: i128, hi: i128| {
+        let mut f = Map::new();
+        f.insert("min".to_string(), Val::some(int(lo)));
+        f.insert("max".to_string(), Val::some(int(hi)));
+        f.insert("extensible".to_string(), Val::Bool(false));
+        Val::Ctor("ValueRange".into(), vec![], f)
+    };
+    let single = |v: i128| {
+        let mut f = Map::new();
+        f.insert("value".to_string(), int(v));
+        f.insert("extensible".to_string(), Val::Bool(false));
+        Val::Ctor("SingleValue".into(), vec![], f)
+    };
+    let element = |e: Val| Val::Ctor("Element".into(), vec![e], Map::new());
+    let size = |inner: Val| Val::Ctor("SizeConstraint".into(), vec![element(inner)], Map::new());
+    let hook = |_: &Evaluator, name: &str, _: &[Val]| -> Option<Result<Val, String>> { if name == ".per_visible" { Some(Ok(Val::Bool(true))) } else { None } };
+    let ev = Evaluator { consts: &consts, call_hook: &hook, inline: Some(&inl) };
+    for (op, b, o, want) in [
+        ("Union", range(1, 4), range(8, 10), (Some(1), Some(10))),
+        ("Intersection", range(1, 4), range(2, 10), (Some(2), Some(4))),
+        ("Except", range(1, 4), single(2), (Some(1), Some(4))),
+        ("Except", range(1, 4), range(8, 10), (Some(1), Some(4))),
+    ] {
+        let key = format!("fold:SIZE {} SIZE:{}", op, o.show().chars().take(20).collect::<String>());
+        ctx.oblige("C04.sizeops", &key, true);
+        let mut setf = Map::new();
+        setf.insert("base".to_string(), size(b));
+        setf.insert("operator".to_string(), Val::ctor(op));
+        setf.insert("operant".to_string(), element(size(o)));
+        let mut env = Env::new();
+        env.insert("set".into(), Val::Ctor("SetOperation".into(), vec![], setf));
+        env.insert("char_set".into(), Val::none());
+        env.insert("range_constraint".into(), Val::Bool(true));
+        let got = match ev.eval_fn_body(&fold.block, &mut env) {
+            Ok(Val::Ctor(n, p, _)) if n == "Ok" => match p.first() {
+                Some(Val::Ctor(s, _, _)) if s == "None" => Ok(None),
+                Some(o) => bounds_of(o).map(Some),
+                None => Err("Ok()".to_string()),
+            },
+            Ok(o) => Err(o.show()),
+            Err(e) => Err(e),
+        };
+        match got {
+            Ok(Some((lo, hi, _))) if (lo, hi) == want => {}
+            Ok(g) => ctx.violate("C04.sizeops", &format!("fold:{}", op), &fold.file, fold.line,
+                &format!("`SIZE (1..4) {} SIZE (..)` folds to {:?}; expected {:?}..{:?} ({})", op.to_uppercase(), g.map(|(l, h, _)| format!("{:?}..{:?}", l, h)), want.0, want.1,
+                    match op { "Union" => "the hull", "Intersection" => "the intersection", _ => "EXCEPT and what follows it is ignored: the base" })),
+            Err(e) => ctx.fail_closed("C04.sizeops", &format!("[{}]: {}", key, e)),
+        }
+    }
+    // (2) the size flag
+    let conv = m.fns.iter().find(|f| f.name == "try_from" && f.self_ty.as_deref() == Some("PerVisibleRangeConstraints") && f.sig.inputs.iter().any(|a| tok(a).contains("&Constraint")));
+    let Some(conv) = conv else {
+        ctx.fail_closed("C04.sizeops", "anchor not found: TryFrom<&Constraint> for PerVisibleRangeConstraints");
+        return;
+    };
+    ctx.func(&conv.key);
+    let pvrc = || {
+        let mut n = Map::new();
+        n.insert("min".to_string(), Val::some(Val::int(1)));
+        n.insert("max".to_string(), Val::some(Val::int(10)));
+        n.insert("extensible".to_string(), Val::Bool(false));
+        n.insert("is_size_constraint".to_string(), Val::Bool(false));
+        Val::Ctor("PerVisibleRangeConstraints".into(), vec![], n)
+    };
+    let hook2 = |_: &Evaluator, name: &str, a: &[Val]| -> Option<Result<Val, String>> {
+        match name {
+            "fold_constraint_set" => Some(Ok(Val::Ctor("Ok".into(), vec![Val::some(Val::Sym("folded".into()))], Map::new()))),
+            ".as_ref" if a.len() == 1 => Some(Ok(a[0].clone())),
+            ".try_into" => Some(Ok(Val::Ctor("Ok".into(), vec![pvrc()], Map::new()))),
+            _ => None,
+        }
+    };
+    let ev2 = Evaluator { consts: &consts, call_hook: &hook2, inline: None };
+    let p = conv.sig.inputs.iter().filter_map(|a| match a { syn::FnArg::Typed(t) => Some(tok(&t.pat)), _ => None }).next().unwrap_or("value".into());
+    for op in ["Union", "Intersection", "Except"] {
+        ctx.oblige("C04.sizeops", &format!("size-flag:{}", op), true);
+        let mut setf = Map::new();
+        setf.insert("base".to_string(), size(range(1, 4)));
+        setf.insert("operator".to_string(), Val::ctor(op));
+        setf.insert("operant".to_string(), element(size(range(8, 10))));
+        let mut spec = Map::new();
+        spec.insert("set".to_string(), Val::Ctor("SetOperation".into(), vec![Val::Ctor("SetOperation".into(), vec![], setf)], Map::new()));
+        spec.insert("extensible".to_string(), Val::Bool(false));
+        let c = Val::Ctor("Subtype".into(), vec![Val::Ctor("ElementSetSpecs".into(), vec![], spec)], Map::new());
+        let mut env = Env::new();
+        env.insert(p.clone(), c);
+        match ev2.eval_fn_body(&conv.block, &mut env) {
+            Ok(Val::Ctor(ok, q, _)) if ok == "Ok" => {
+                let flag = match q.first() { Some(Val::Ctor(_, _, f)) => f.get("is_size_constraint").cloned(), _ => None };
+                if flag != Some(Val::Bool(true)) {
+                    ctx.violate("C04.sizeops", &format!("size-flag:{}", op), &conv.file, conv.line,
+                        &format!("`SIZE (1..4) {} SIZE (8..10)` is converted into bounds that are not marked as a size constraint (is_size_constraint = {:?}): the annotation becomes `value(\"..\")` on an OCTET STRING / string / SEQUENCE OF instead of `size(\"..\")`", op.to_uppercase(), flag.map(|v| v.show())));
+                }
+            }
+            Ok(o) => ctx.fail_closed("C04.sizeops", &format!("[size flag {}]: {}", op, o.show().chars().take(120).collect::<String>())),
+            Err(e) => ctx.fail_closed("C04.sizeops", &format!("[size flag {}]: {}", op, e)),
         }
     }
 }
